@@ -382,6 +382,7 @@ class CallMixin:
         from .symexec import Undecided
         self.mark_escapes(st, list(pos) + list(kws.values()) + [x for x in (star, dstar) if x is not None])
         names = self.bind_params(c, pos, kws, st, star, dstar)
+        self.__dict__.setdefault("applied_contracts", set()).add(c.name)
         short = cname.split(".", 1)[-1] if cname.count(".") else cname
         occ = self.call_ordinals().get(id(node), 0)
         lab = "%s@%d" % (short, occ) if occ else short
@@ -497,6 +498,7 @@ class CallMixin:
                     xs.assume(g)
             if not dead:
                 xs.trace.append("L%s: %s raises" % (ln, short))
+                xs.ghost["$raised:" + str(exc)] = cname       # path ghost behind raised_by()
                 for r in self.contract.labels.get("site_assumes_after", {}).get(ctext, []):
                     ea = self.spec_env(xs)
                     ea.old = old
